@@ -10,7 +10,8 @@ CPython disagrees with the specification.  Known 3.4/3.11 deltas for this family
 import json, sys, symtable, io, contextlib, collections
 PRO = open(sys.argv[2]).read() if len(sys.argv) > 2 else None
 SC = {1: "local", 2: "global_explicit", 3: "global_implicit", 4: "free", 5: "cell"}
-PROLOGUE = "LOG = []\nFNS = []\ndef L(v):\n    LOG.append(v)\n    return v\ndef REG(f, a):\n    FNS.append([f, a])\n    return f\n"
+PROLOGUE = ("LOG = []\nFNS = []\ndef L(v):\n    LOG.append(v)\n    return v\ndef REG(f, a):\n    FNS.append([f, a])\n    return f\n"
+            "CLSS = []\ndef REGC(c, n):\n    CLSS.append([c, n])\ndef CN(c):\n    i = len(CLSS) - 1\n    while i >= 0:\n        if CLSS[i][0] is c:\n            return CLSS[i][1]\n        i -= 1\n    return 'unregistered'\n")
 EPILOGUE = "i_ = 0\nn_ = len(FNS)\nwhile i_ < n_:\n    p_ = FNS[i_]\n    try:\n        p_[0](**p_[1])\n    except NameError:\n        L('NameError')\n    i_ += 1\n"
 bad = collections.Counter(); n = 0
 for line in open(sys.argv[1]):
